@@ -459,10 +459,14 @@ def gen_policy(rng, k, allow_bad=False):
 
 def gen_config_conv(rng):
     """a factory in which some edges are conveyors: run on the implementation only and judged by the oracle"""
-    c = gen_config(rng, with_fleet=rng.random() < 0.3)
+    sc = rng.random() < 0.3
+    c = gen_config_sc(rng) if sc else gen_config(rng, with_fleet=rng.random() < 0.3)
+    pallet_in = set(n["ins"][0] for n in c["nodes"] if n["kind"] == "combiner" and n["ins"])
     k = 0
-    for e in c["edges"]:
-        if e["kind"] == "buffer" and (k == 0 or rng.random() < 0.4):
+    for i, e in enumerate(c["edges"]):
+        # the splitter and the combiner accept Buffer out-edges only ("Unsupported edge type" otherwise)
+        if e["kind"] == "buffer" and i not in pallet_in and c["nodes"][e["src"]]["kind"] not in ("splitter", "combiner") \
+                and (k == 0 or rng.random() < 0.4):
             src, dst = e["src"], e["dst"]
             e.clear()
             e.update(kind="conv", ckind=rng.choice(["cont", "cont", "slot"]), cap=rng.choice([1, 2, 3, 4]), acc=rng.choice([0, 1]), src=src, dst=dst)
